@@ -39,7 +39,25 @@ SeekUpAccepted ==
     /\ hp.seekroot = 2 * wl
        \/ (ByteOffset(hp.seekroot) <= bytes /\ bytes <= ByteOffset(hp.seekroot) + TrueNode(hp.seekroot).size)
 
+\* partial upgrades (additional nodes): the replica asks for any length between its own and the writer's
+PartialRequests == {u \in (rep.rl + 1)..(wl - 1) : TRUE}
+PartialResult(u) == VerifyProofX(rep, HonestPartialUp(rep, u, wl), 0, FALSE, "none", <<>>)
+FetchPartial(u) ==
+  /\ u \in PartialRequests
+  /\ LET r == PartialResult(u) IN r.ok /\ rep' = Apply(rep, r)
+  /\ hist' = Append(hist, <<"partial", u>>)
+  /\ UNCHANGED wl
+PartialAccepted ==
+  \A u \in PartialRequests : LET r == PartialResult(u) IN r.ok /\ SoundResult(rep, r, wl) /\ r.len = wl
+PartialLine(u) ==
+  LET p == HonestPartialUp(rep, u, wl) IN
+  [sizes |-> Sizes, wl |-> wl, hist |-> hist, b |-> -1, h |-> -1, bytes |-> -1, upto |-> u, rl |-> rep.rl,
+   block |-> <<>>, seek |-> <<>>,
+   up |-> [j \in 1..Len(p.up.nodes) |-> p.up.nodes[j].idx],
+   extra |-> [j \in 1..Len(p.up.extra) |-> p.up.extra[j].idx]]
+
 SNext == \/ Next
+         \/ (\E u \in 1..WLen : FetchPartial(u))
          \/ (\E rq \in (-1..(WLen - 1)) \X (-1..(2 * WLen)) \X (0..TotalBytes(WLen)) : FetchSeek(rq))
          \/ (\E bytes \in 0..TotalBytes(WLen) : FetchSeekUp(bytes))
 SSpec == Init /\ [][SNext]_mvars
@@ -76,11 +94,14 @@ SeekUpLine(bytes) ==
    block |-> <<>>,
    seek |-> [j \in 1..Len(hp.seek) |-> hp.seek[j].idx],
    up |-> [j \in 1..Len(NodesOf(hp.proof, "up")) |-> NodesOf(hp.proof, "up")[j].idx]]
+ExportPartial == \A u \in PartialRequests : PrintT(<<"SEEK", ToJson(PartialLine(u))>>)
 \* for longer logs: only the requests that get a seek section, and every seek + upgrade request
 ExportSeekSel ==
+  /\ ExportPartial
   /\ \A rq \in SeekRequests :
        HonestSeekProof(rep, rq[1], rq[2], rq[3], wl).seek # <<>> => PrintT(<<"SEEK", ToJson(SeekLine(rq))>>)
   /\ \A bytes \in SeekUpRequests : PrintT(<<"SEEK", ToJson(SeekUpLine(bytes))>>)
-ExportSeek == /\ \A rq \in SeekRequests : PrintT(<<"SEEK", ToJson(SeekLine(rq))>>)
+ExportSeek == /\ ExportPartial
+              /\ \A rq \in SeekRequests : PrintT(<<"SEEK", ToJson(SeekLine(rq))>>)
               /\ \A bytes \in SeekUpRequests : PrintT(<<"SEEK", ToJson(SeekUpLine(bytes))>>)
 =============================================================================
